@@ -6,6 +6,7 @@ import (
 	"flag"
 	"fmt"
 	"math/rand"
+	"os"
 	"reflect"
 	"sort"
 	"strings"
@@ -475,8 +476,79 @@ func inputChunk(tw *trace.Writer, rng *rand.Rand, names []string, n int, exh boo
 			}
 		}
 	}
+	// the same through a live screen: the bytes arrive on a fake tty, the escape timeout is the real 50 ms timer of
+	// the main loop, the events come out of PollEvent - predicted by the tokenizer model like every other run
+	for _, name := range names {
+		if name != "xterm-256color" && name != "vt100" && name != "rxvt" && name != "linux" {
+			continue
+		}
+		g, err := newGen(rng, name)
+		if err != nil {
+			return err
+		}
+		tw.Emit(trace.Ev{"ev": "Reset"})
+		tw.Emit(g.chunkConfig(name, nil))
+		for k, b := range [][]byte{{0x1b}, {0x1b, 0x1b}, {0x1b, '['}, {0xe4, 0xb8}, []byte("a\x1b"), []byte("\x1b[<0;1"), []byte("\x1bOx\x1b"), []byte("zz")} {
+			evs, err := liveDecode(g.ti, b)
+			if err != nil {
+				return err
+			}
+			e := trace.Ev{"ev": "Run", "s": 1<<26 + runs + k, "bytes": trace.Ints(b), "cuts": []int{}, "evs": evs, "left": 0, "held": 0,
+				"panic": false, "stall": false, "tokens": 0, "live": true}
+			tw.Emit(e)
+			runs++
+		}
+	}
 	st["histories"], st["ops"], st["distinct"], st["samples"] = strs, runs, len(distinct), samples
 	return nil
+}
+
+// liveDecode types b at a real screen on a fake tty and returns the input events that come out of PollEvent until
+// the screen has been quiet for 300 ms (at most 3 s).
+func liveDecode(ti terminfo.Terminfo, b []byte) ([]interface{}, error) {
+	os.Setenv("LC_ALL", "en_US.UTF-8")
+	tty := faketty.New(80, 24)
+	s, err := tcell.NewTerminfoScreenFromTtyTerminfo(tty, &ti)
+	if err != nil {
+		return nil, err
+	}
+	if err := s.Init(); err != nil {
+		return nil, err
+	}
+	defer s.Fini()
+	s.EnableMouse()
+	s.EnablePaste()
+	s.EnableFocus()
+	evc := make(chan tcell.Event, 64)
+	go func() {
+		for {
+			ev := s.PollEvent()
+			if ev == nil {
+				close(evc)
+				return
+			}
+			evc <- ev
+		}
+	}()
+	tty.Inject(b)
+	evs := []interface{}{}
+	limit := time.After(3 * time.Second)
+	for {
+		select {
+		case ev, ok := <-evc:
+			if !ok {
+				return evs, nil
+			}
+			switch ev.(type) {
+			case *tcell.EventKey, *tcell.EventMouse, *tcell.EventPaste, *tcell.EventFocus, *tcell.EventClipboard:
+				evs = append(evs, evJSON(ev))
+			}
+		case <-time.After(300 * time.Millisecond):
+			return evs, nil
+		case <-limit:
+			return evs, nil
+		}
+	}
 }
 
 // inputAlpha replays the state space of spec/InputModel.tla through the real decoder: every string over
